@@ -251,41 +251,74 @@ def rule_guards(ctx, cfg, r):
     it = c.fn("inflate::core::init_tree")
     ctx.touched(it)
     HUFFLEN = c.const_int("inflate::core::HUFFLEN_TABLE")
-    sites = [(f, bb, sp) for f, bb, sp in agg_sites(c, "inflate::core::State", "BadTotalSymbols") if f.id == it.id]
-    n_over = n_inc = 0
-    for f, bb, sp in sites:
-        # guards: the switch edges that dominate the site
-        guards = dominating_atoms(c, it, bb)
-        txt = " ∧ ".join("%s∈%r" % (tstr(t), s) for t, s in guards)
-        if any(t[0] == "bin" and t[1] == "Lt" and is_const(t[3]) and const_val(t[3]) == 0 and s.single() == 1 for t, s in guards):
-            n_over += 1
-        elif any(t[0] == "bin" and t[1] in ("Ne", "Eq") and is_const(t[3]) and const_val(t[3]) == 1 << 16 for t, s in guards):
-            n_inc += 1
-            # exemption: (bt == HUFFLEN_TABLE || max_code_len > 1): evaluate the paths from the `total != 65536` test to the site
-            dblk = None
-            for d in sorted(it.dominators().get(bb, set())):
-                t = it.blocks[d]["t"]
-                if "switch" in t and d != bb:
-                    te = local_expr(c, it, d, t["switch"])
-                    if te and te[0] == "bin" and te[1] in ("Ne", "Eq") and is_const(te[3]) and const_val(te[3]) == 1 << 16:
-                        dblk = d
-            okex = False
-            if dblk is not None:
-                ev2 = paths.Evaluator(c, stop_blocks=[bb], max_blocks=16, max_paths=500)
-                st_rows = [x for x in ev2.run(it, start_bb=dblk) if x.outcome == ("stop", bb)]
-                okex = bool(st_rows)
-                for x in st_rows:
-                    e1 = any(a[0] == "bin" and a[1] == "Eq" and is_const(a[3]) and const_val(a[3]) == HUFFLEN and sv.single() == 1 for a, sv in x.atoms)
-                    e2 = any(a[0] == "bin" and a[1] == "Gt" and is_const(a[3]) and const_val(a[3]) == 1 and sv.single() == 1 for a, sv in x.atoms)
-                    okex = okex and (e1 or e2)
-            if not okex:
-                r.fail(it.name, "BadTotalSymbols/incomplete-exemption", "incomplete-code rejection is not conditioned on "
-                       "(code-length table ∨ max code length > 1): %s" % txt, sp)
-    if n_over >= 1 and n_inc >= 1:
-        r.ok(it.name, "BadTotalSymbols", "over-subscription (left < 0) and incompleteness (total != 65536) both rejected (%d + %d sites)" % (n_over, n_inc))
+    # decided on the path tables of init_tree (rows from the entry and from every loop head), by value sets — independent of how the
+    # tests are spelled (`!=` / `==`, De Morgan, named booleans, `if` / `match`):
+    #   over-subscription: a row that returns BadTotalSymbols from inside the counting loop has a quantity proved negative;
+    #   completeness: after the counting loop, with T the Kraft total (the term compared with 65536), B the table kind and M the longest
+    #   code length: reject  <=>  T != 65536 and (B == code-length table or M > 1).
+    E_ = ctx.effects(cfg)
+    rows0 = paths.Evaluator(c, effects=E_, pure_calls=sm.PURE, max_paths=6000, max_blocks=80).run(it)
+    heads_ = sorted({x.outcome[1] for x in rows0 if x.outcome[0] == "backedge"})
+    # rows from the entry run through the loops with zero iterations, where the totals are still the constants they were initialised
+    # with (tests on them fold away): the completeness test is therefore judged on the rows that start at a loop head
+    allrows = []
+    for h_ in heads_:
+        allrows += paths.Evaluator(c, effects=E_, pure_calls=sm.PURE, max_paths=6000, max_blocks=80,
+                                   stop_blocks=[q for q in heads_ if q != h_]).run(it, start_bb=h_)
+
+    def is_bts(x):
+        return x.outcome[0] == "return" and x.ret and x.ret[0] == "agg" and x.ret[2] == "Some" and \
+            paths.term_contains(x.ret, lambda y: y and y[0] == "enum" and y[2] == "BadTotalSymbols")
+
+    def subjects(x, const):
+        out = []
+        for a, sset in x.atoms:
+            if a[0] == "bin" and a[1] in CMP_OPS and is_const(a[3]) and const_val(a[3]) == const and not is_const(a[2]):
+                out.append(a[2])
+        return out
+    CMP_OPS = ("Eq", "Ne", "Lt", "Le", "Gt", "Ge")
+    n_over = n_inc = n_pass = 0
+    bad = None
+    for x in allrows:
+        if x.outcome[0] == "diverge":
+            continue
+        T = subjects(x, 1 << 16)
+        if not T:
+            if is_bts(x):
+                neg = [a[2] for a, sset in x.atoms if a[0] == "bin" and a[1] in CMP_OPS and is_const(a[3]) and const_val(a[3]) == 0]
+                if any(vs(x, t).hi() is not None and vs(x, t).hi() < 0 for t in neg):
+                    n_over += 1
+                else:
+                    bad = bad or ("a BadTotalSymbols exit is neither under a negative Kraft remainder nor after the total != 65536 test: %s" % x.describe(12))
+            continue
+        tv = vs(x, T[0])
+        incomplete = not tv.contains(1 << 16)
+        complete = tv.single() == 1 << 16
+        B = [t for t in subjects(x, HUFFLEN)]
+        M = [t for t in subjects(x, 1) if t not in B]
+        is_cl = any(vs(x, t).single() == HUFFLEN for t in B)
+        not_cl = any(not vs(x, t).contains(HUFFLEN) for t in B)
+        m_gt1 = any(vs(x, t).lo() is not None and vs(x, t).lo() > 1 for t in M)
+        m_le1 = any(vs(x, t).hi() is not None and vs(x, t).hi() <= 1 for t in M)
+        if is_bts(x):
+            if incomplete and (is_cl or m_gt1):
+                n_inc += 1
+            else:
+                bad = bad or ("a code set is rejected as incomplete outside (total != 65536 ∧ (code-length table ∨ longest code > 1)): %s" % x.describe(14))
+        else:
+            if complete or (not_cl and m_le1):
+                n_pass += 1
+            else:
+                bad = bad or ("a code set is accepted although total != 65536 is possible and it is not a literal/length or distance set whose "
+                              "longest code is a single bit: %s" % x.describe(14))
+    if bad:
+        r.fail(it.name, "BadTotalSymbols/incomplete-exemption", bad)
+    if n_over >= 1 and n_inc >= 1 and n_pass >= 1:
+        r.ok(it.name, "BadTotalSymbols", "over-subscription (negative remainder) and incompleteness (total != 65536, except a lone 1-bit litlen/dist code) "
+             "both rejected (%d + %d rejecting rows, %d accepting rows)" % (n_over, n_inc, n_pass))
     else:
         r.fail(it.name, "BadTotalSymbols", "init_tree must reject over-subscribed (left < 0) and incomplete (total != 1<<16) code sets; "
-               "found %d over-subscription and %d incompleteness sites" % (n_over, n_inc))
+               "found %d over-subscription, %d incompleteness and %d accepting rows" % (n_over, n_inc, n_pass))
     # INVALID_CODE filler decodes to an out-of-range symbol with a non-zero length
     inv = c.const("init_tree::INVALID_CODE", required=False)
     if inv is not None and "int" in inv:
@@ -328,9 +361,9 @@ def r_dist(r, fn, key, fails, passes, NONWRAP):
                     const_val(a[2][3]) == NONWRAP and is_const(a[3]) and const_val(a[3]) == 0:
                 v = s.single()
                 flag = v if a[1] == "Ne" else (None if v is None else 1 - v)
-        for X, d in cand.items():
-            if "pos" in d:
-                return X, d.get("pos"), d.get("len"), flag
+        # either test may be skipped by short-circuit evaluation on a given path; prefer the candidate that has both
+        for X, d in sorted(cand.items(), key=lambda kv: -len(kv[1])):
+            return X, d.get("pos"), d.get("len"), flag
         return None, None, None, flag
     for x in fails:
         X, pos, ln, flag = atoms_of(x)
@@ -398,8 +431,14 @@ def local_expr(crate, fn, bb, operand, depth=0):
         return ("place", fn.name, repr(Place(pl).key()))
     l = pl["l"]
     defs = fn.defs().get(l, [])
-    if fn.local_name(l) or len(defs) != 1 or defs[0][1] == "t":
+    if len(defs) != 1 or defs[0][1] == "t" or l <= fn.argc:
         return ("var", fn.local_name(l) or "_%d" % l)
+    if fn.local_name(l):
+        # a named single-assignment binding (`let wrapped = flags & X != 0;`) stands for its defining expression, so that a guard
+        # reads the same whether or not its parts were given names; bindings that merely copy another variable keep their name
+        rv0 = fn.blocks[defs[0][0]]["s"][defs[0][1]]["a"][1]
+        if not any(k in rv0 for k in ("bin", "un", "cast")):
+            return ("var", fn.local_name(l))
     rv = fn.blocks[defs[0][0]]["s"][defs[0][1]]["a"][1]
     if "use" in rv:
         return local_expr(crate, fn, bb, rv["use"], depth + 1)
@@ -548,12 +587,28 @@ def rule_end_of_input(ctx, cfg, r):
             n += 1
             guards = dominating_atoms(c, g, bb)
             exhausted = False
+
+            def is_bytes_left(t_):
+                """a bytes_left() value: the call itself, or a local that holds its result"""
+                if t_[0] in ("pure", "call") and str(t_[1]).endswith("bytes_left"):
+                    return True
+                if t_[0] == "var":
+                    ls = [i for i in range(len(g.locals)) if g.local_name(i) == t_[1]]
+                    for l_ in ls:
+                        for d_ in g.defs().get(l_, []):
+                            if d_[1] == "t" and callee_name(g.blocks[d_[0]]["t"]["call"]).endswith("bytes_left"):
+                                return True
+                return False
             for term, s in guards:
-                # discriminant of read_byte() result == None, or bytes_left() > 0 false
+                # discriminant of read_byte() result == None, or bytes_left() == 0 in any spelling
                 if term[0] == "discr" and s.single() == 0:
                     exhausted = True
-                if term[0] == "bin" and term[1] == "Gt" and is_const(term[3]) and const_val(term[3]) == 0 and s.single() == 0:
-                    exhausted = True
+                if term[0] == "bin" and is_const(term[3]) and s.single() is not None:
+                    cv, v = const_val(term[3]), s.single()
+                    zero = (term[1] == "Gt" and cv == 0 and v == 0) or (term[1] == "Eq" and cv == 0 and v == 1) or \
+                        (term[1] == "Ne" and cv == 0 and v == 0) or (term[1] == "Lt" and cv == 1 and v == 1) or (term[1] == "Ge" and cv == 1 and v == 0)
+                    if zero and (term[1] == "Gt" or is_bytes_left(term[2])):
+                        exhausted = True
             if exhausted:
                 r.ok(g.name, "eoi-site", "end_of_input reached only when the input iterator is exhausted", t.get("sp"))
             else:
@@ -564,10 +619,9 @@ def rule_end_of_input(ctx, cfg, r):
     # in the machine: every suspension on input carries the exhausted-input fact or comes from a reader helper
     for arm, x in all_rows(M):
         if x.kind == "end" and x.target in ("NeedsMoreInput", "FailedCannotMakeProgress"):
+            bl = [st_ for a, s in x.atoms for st_ in paths.subterms(a) if st_ and st_[0] == "pure" and str(st_[1]).endswith("InputWrapper::bytes_left")]
             src = calls_named(x, "inflate::core::read_bits", "inflate::core::decode_huffman_code",
-                              "InputWrapper::read_byte") or any(
-                a[0] == "bin" and a[1] == "Gt" and paths.term_contains(a, lambda y: y[0] == "pure" and y[1].endswith("InputWrapper::bytes_left"))
-                and s.single() == 0 for a, s in x.atoms)
+                              "InputWrapper::read_byte") or any(vs(x, t_).hi() is not None and vs(x, t_).hi() <= 0 for t_ in bl)
             if not src:
                 r.fail(M.fn.name, "suspend-without-read/" + arm, "arm %s suspends for input without having tried to read: %s" % (arm, x.describe(8)))
 
@@ -637,12 +691,19 @@ def rule_zlib_header(ctx, cfg, r, exhaustive=True):
 
 # ---------------------------------------------------------------------------------------------- R05.1
 def rule_param_validation(ctx, cfg, r):
+    """BadParam <=> out_pos > out.len()  or  (ring mode and out.len() is neither 0 nor a power of two); decided by evaluating the path
+    conditions of the function prefix (everything before the decode loop) over a grid of buffer geometries — independent of how the
+    two tests are written (mask trick, is_power_of_two, one combined or two separate returns)."""
+    import termeval
     M = machine(ctx, cfg)
     c = ctx.crate(cfg)
     fn = M.fn.name
+    NONWRAP = c.const_int("inflate_flags::TINFL_FLAG_USING_NON_WRAPPING_OUTPUT_BUF")
     ev = paths.Evaluator(c, effects=ctx.effects(cfg), stop_blocks=[M.loop_head], pure_calls=sm.PURE)
     rows = ev.run(M.fn)
+    ptr = ev.ptr
     nbad = 0
+    compiled = []
     for x in rows:
         if x.outcome[0] == "return":
             ops = tuple_ops(x.ret)
@@ -650,30 +711,52 @@ def rule_param_validation(ctx, cfg, r):
                     not param_stores(x) and not [e for e in x.calls() if not e[1].startswith("core::")]:
                 nbad += 1
                 r.ok(fn, "badparam-row", "(BadParam, 0, 0) with no store through r / out")
+                kind = "bad"
             else:
                 r.fail(fn, "early-return", "an early return other than (BadParam,0,0) without effects: %s" % x.describe(8))
+                continue
         elif x.outcome[0] == "stop":
-            # both validity tests decided false on this row, before any access to *r
-            pw = pos = None
-            for a, s in x.atoms:
-                if a[0] == "bin" and a[1] in ("Ne", "Eq") and a[2][0] == "bin" and a[2][1] == "BitAnd" and \
-                        paths.term_contains(a[2], lambda y: y[0] == "pure" and y[1] == "wrapping_add") and is_const(a[3]) and const_val(a[3]) == 0:
-                    v = s.single()
-                    pw = v if a[1] == "Ne" else 1 - v
-                if a[0] == "bin" and a[1] == "Gt" and a[2] == P(4) and a[3][0] == "len":
-                    pos = s.single()
-            if pw == 0 and pos == 0:
-                r.ok(fn, "valid-row", None)
-            else:
-                r.fail(fn, "valid-row", "decoding starts without both geometry tests having passed (power-of-two ring: %r, out_pos<=len: %r): %s"
-                       % (pw, pos, x.describe(8)))
-            # order: the first read of *r (state) happens after the tests
+            kind = "go"
+        elif x.outcome[0] == "diverge":
+            continue
         else:
             r.fail(fn, "prefix-outcome", "unexpected outcome in the prefix: %s" % (x.outcome,))
-    if nbad < 2:
-        r.fail(fn, "badparam-rows", "%d BadParam rows (reference tree: 2 — non power-of-two ring, out_pos > len)" % nbad)
-    # mask: usize::MAX under NON_WRAPPING else len.saturating_sub(1)
-    NONWRAP = c.const_int("inflate_flags::TINFL_FLAG_USING_NON_WRAPPING_OUTPUT_BUF")
+            continue
+
+        def leaf(q):
+            if q[0] == "len" and q[1] == ("load", ("deref", P(3)), 0):
+                return "L"
+            if q == P(4):
+                return "Pp"
+            if q == P(6):
+                return "F"
+            if q == P(7):
+                return "MX"
+            raise termeval.Unsupported(tstr(q))
+        try:
+            compiled.append((kind, termeval.make_fn(termeval.row_condition(x, leaf, ptr), ["L", "Pp", "F", "MX"]), x))
+        except termeval.Unsupported as e:
+            # a condition on something other than the buffer geometry / flags before the loop: decoder state is consulted first
+            r.fail(fn, "valid-row", "the function prefix branches on %s before the geometry tests are settled: %s" % (e, x.describe(8)))
+    if nbad < 1:
+        r.fail(fn, "badparam-rows", "no (BadParam, 0, 0) exit found before the decode loop")
+    top = (1 << ptr) - 1
+    lens = sorted(set(list(range(0, 40)) + [q for k in range(5, ptr) for q in ((1 << k) - 1, 1 << k, (1 << k) + 1)] + [top - 1, top]))
+    wrong = None
+    n = 0
+    for L in lens:
+        for Pp in sorted({0, 1, max(0, L - 1), L, min(top, L + 1), top}):
+            for F in (0, NONWRAP, NONWRAP | 1, 3):
+                want_bad = Pp > L or (not (F & NONWRAP) and L != 0 and (L & (L - 1)) != 0)
+                hit = [k for k, g, x in compiled if g(L, Pp, F, 1000)]
+                n += 1
+                if len(hit) != 1 or (hit[0] == "bad") != want_bad:
+                    wrong = wrong or (L, Pp, F, want_bad, hit)
+    if wrong:
+        r.fail(fn, "valid-row", "buffer geometry len=%d out_pos=%d flags=%#x: BadParam expected %s, the prefix takes %s" % wrong)
+    else:
+        r.ok(fn, "valid-row", "%d geometries (len x out_pos x ring/flat): BadParam exactly when out_pos > len or a ring buffer whose length is neither 0 "
+             "nor a power of two; nothing of *r or out is touched first" % n)
 
 
 # ---------------------------------------------------------------------------------------------- epilogue table
@@ -753,33 +836,44 @@ def rule_counts_and_undo(ctx, cfg, r4, r6):
 
 
 def rule_undo_bytes_value(ctx, cfg, r):
-    """R06.3: undo_bytes gives back min(num_bits / 8, max) whole bytes and keeps the rest."""
+    """undo_bytes(l, max) returns min(l.num_bits / 8, max) and leaves l.num_bits - 8 * result bits (bit_buf untouched); decided by
+    evaluating the path table of the function for every num_bits in 0..=64 and a grid of `max` — so `>> 3` / `/ 8`, cmp::min / if-else
+    are all the same to the rule."""
+    import termeval
     c = ctx.crate(cfg)
     f = c.fn("inflate::core::undo_bytes")
     ctx.touched(f)
-    ev = paths.Evaluator(c)
-    rows = [x for x in ev.run(f) if x.outcome[0] == "return"]
-    nb = fld(c, P(1), "LocalVars", "num_bits", 0)
-    good = len(rows) == 1
-    if good:
-        x = rows[0]
-        ret = x.ret
+    rows = [x for x in paths.Evaluator(c, effects=ctx.effects(cfg)).run(f) if x.outcome[0] == "return"]
 
-        def is_div8(t):
-            return (t[0] == "bin" and t[1] == "Shr" and t[2] == nb and is_const(t[3]) and const_val(t[3]) == 3) or \
-                   (t[0] == "bin" and t[1] == "Div" and t[2] == nb and is_const(t[3]) and const_val(t[3]) == 8)
-        good = ret[0] == "pure" and ret[1] == "min" and any(is_div8(q) for q in ret[2]) and P(2) in ret[2]
-        st = store_to_field(x, "num_bits", "LocalVars")
-
-        def is_mul8(t):
-            return (t[0] == "bin" and t[1] == "Shl" and t[2] == ret and is_const(t[3]) and const_val(t[3]) == 3) or \
-                   (t[0] == "bin" and t[1] == "Mul" and ret in (t[2], t[3]) and any(is_const(q) and const_val(q) == 8 for q in (t[2], t[3])))
-        good = good and len(st) == 1 and st[0][2][0] == "bin" and st[0][2][1] == "Sub" and st[0][2][2] == nb and is_mul8(st[0][2][3])
-    if good:
-        r.ok(f.name, "value", "result = min(num_bits >> 3, max); num_bits -= result << 3")
+    def leaf(q):
+        if q[0] == "load" and paths.place_is_field(q[1], "num_bits") and q[2] == 0:
+            return "NB"
+        if q == P(2):
+            return "MX"
+        raise termeval.Unsupported(tstr(q))
+    comp = []
+    try:
+        for x in rows:
+            cond = termeval.make_fn(termeval.row_condition(x, leaf), ["NB", "MX"])
+            ret = termeval.make_fn(termeval.compile_term(x.ret, leaf), ["NB", "MX"])
+            st = [e for e in x.stores() if e[1][0] == "fld" and e[1][2] == "num_bits"]
+            nb = termeval.make_fn(termeval.compile_term(st[-1][2], leaf), ["NB", "MX"]) if st else (lambda NB, MX: NB)
+            other = [e for e in x.stores() if not (e[1][0] == "fld" and e[1][2] == "num_bits")]
+            comp.append((cond, ret, nb, other))
+    except termeval.Unsupported as e:
+        r.fail(f.name, "value", "undo_bytes depends on %s: it must be a function of num_bits and max only" % e)
+        return
+    wrong = None
+    for NB in range(0, 65):
+        for MX in (0, 1, 2, 3, 4, 5, 7, 8, 9, 100, 1 << 31):
+            hit = [q for q in comp if q[0](NB, MX)]
+            want = min(NB // 8, MX)
+            if len(hit) != 1 or hit[0][1](NB, MX) != want or hit[0][2](NB, MX) != NB - 8 * want or hit[0][3]:
+                wrong = wrong or (NB, MX, want, [(q[1](NB, MX), q[2](NB, MX)) for q in hit])
+    if wrong:
+        r.fail(f.name, "value", "undo_bytes(num_bits=%d, max=%d) must return %d and keep the remaining bits; the function gives (result, new num_bits) = %s" % wrong)
     else:
-        r.fail(f.name, "value", "undo_bytes must return min(num_bits / 8, max) and subtract 8·result from num_bits: %s"
-               % [(tstr(x.ret), [tstr(e[2]) for e in x.stores()]) for x in rows])
+        r.ok(f.name, "value", "for all num_bits in 0..=64 and the max grid: result = min(num_bits / 8, max), num_bits -= 8 * result, nothing else written")
 
 
 def rule_blockdone_order(ctx, cfg, r):
@@ -1088,8 +1182,17 @@ def rule_adler_epilogue(ctx, cfg, r):
                     r.fail(fn, "compare-fresh", "the trailer is compared with a stale checksum value: %s" % tstr(a))
         if upd:
             a = upd[0][2]
-            rng = paths.term_contains(a[1], lambda y: y[0] == "agg" and y[1].endswith("ops::range::Range") and y[4][0] == P(4) and
-                                      y[4][1][0] == "pure" and y[4][1][1].endswith("OutputBuffer::position"))
+            from rules.copyrt import lin
+
+            def is_out_range(y):
+                # out_pos .. position, whatever way the end is spelled (`position`, `out_pos + (position - out_pos)`, a local holding it)
+                if not (y[0] == "agg" and y[1].endswith("ops::range::Range")):
+                    return False
+                c0, s0 = lin(y[4][0])
+                c1, s1 = lin(y[4][1])
+                return c0 == 0 and s0 == {P(4): 1} and c1 == 0 and len(s1) == 1 and \
+                    all(k[0] == "pure" and k[1].endswith("OutputBuffer::position") and v == 1 for k, v in s1.items())
+            rng = paths.term_contains(a[1], is_out_range)
             if not (paths.is_load_of(a[0], "check_adler32", "DecompressorOxide") and rng):
                 r.fail(fn, "update-range", "checksum update is not over out[out_pos .. position) starting from r.check_adler32: %s" % [tstr(q) for q in a])
             st = store_to_field(x, "check_adler32", "DecompressorOxide")
@@ -1370,24 +1473,38 @@ def rule_boundary(ctx, cfg, r):
     for x in M.arm_rows("BlockDone"):
         if x.kind == "jump" and x.target == "ReadBlockHeader":
             r.ok(fn, "boundary-continue", None)
-    # epilogue: state moves to ReadBlockHeader; undo_bytes applies
+    # a stop at a block boundary saves state ReadBlockHeader and hands unread bytes back: the state is set either by the arm that reports
+    # the boundary (before it leaves the loop) or by the exit path under status == BlockBoundary; undo_bytes runs on the exit path
     ST = discrs(c, "TINFLStatus")
     stt = status_term(M)
-    seen = False
+    arm_sets = None
+    for x in M.arm_rows("BlockDone"):
+        if x.kind == "end" and x.target == "BlockBoundary":
+            v = x.store.get(("local", 0, M.state_local))
+            good_ = v is not None and is_enum(v, "ReadBlockHeader")
+            arm_sets = good_ if arm_sets is None else (arm_sets and good_)
+    epi_sets = None
+    undo_ok = None
     for x in epilogue_rows(ctx, cfg):
         if x.outcome[0] != "return":
             continue
         sv = vs(x, stt)
+        if not sv.contains(ST["BlockBoundary"]):
+            continue
+        undo = calls_named(x, "inflate::core::undo_bytes")
+        undo_ok = bool(undo) if undo_ok is None else (undo_ok and bool(undo))
         if sv.single() == ST["BlockBoundary"]:
-            seen = True
             st = store_to_field(x, "state", "DecompressorOxide")
-            undo = calls_named(x, "inflate::core::undo_bytes")
-            if st and is_enum(st[-1][2], "ReadBlockHeader") and undo:
-                r.ok(fn, "boundary-exit", "on BlockBoundary: unread bytes handed back, saved state = ReadBlockHeader")
-            else:
-                r.fail(fn, "boundary-exit", "BlockBoundary exit must save state ReadBlockHeader and hand back unread bytes: %s" % x.describe(6))
-    if not seen:
-        r.fail(fn, "boundary-exit", "the epilogue has no BlockBoundary row")
+            good_ = bool(st) and is_enum(st[-1][2], "ReadBlockHeader")
+            epi_sets = good_ if epi_sets is None else (epi_sets and good_)
+    if (arm_sets or epi_sets) and undo_ok:
+        r.ok(fn, "boundary-exit", "on BlockBoundary: unread bytes handed back, saved state = ReadBlockHeader (set %s)"
+             % ("by the BlockDone arm" if arm_sets else "on the exit path"))
+    elif undo_ok is None and arm_sets is None:
+        r.fail(fn, "boundary-exit", "no path reports BlockBoundary")
+    else:
+        r.fail(fn, "boundary-exit", "BlockBoundary exit must save state ReadBlockHeader and hand back unread bytes "
+               "(state set in the arm: %s, on the exit path: %s, undo_bytes on every exit that may carry BlockBoundary: %s)" % (arm_sets, epi_sets, undo_ok))
     # record symmetry
     g = c.fn("inflate::core::DecompressorOxide::block_boundary_state")
     h = c.fn("inflate::core::DecompressorOxide::from_block_boundary_state")
@@ -1403,7 +1520,11 @@ def rule_boundary(ctx, cfg, r):
             for name, v in zip(rec[3], rec[4]):
                 src = [st[1][2] for st in paths.subterms(v) if st[0] == "load" and st[1][0] == "fld" and st[1][3].endswith("DecompressorOxide")]
                 rec_fields[name] = src
-            st_atom = any(a[0] == "bin" and a[1] == "Eq" and a[3][0] == "enum" and a[3][2] == "ReadBlockHeader" and s.single() == 1 for a, s in x.atoms)
+            RBH = discr(c, "inflate::core::State", "ReadBlockHeader")
+            st_atom = any(a[0] == "bin" and a[1] == "Eq" and a[3][0] == "enum" and a[3][2] == "ReadBlockHeader" and s.single() == 1 for a, s in x.atoms) or \
+                any(vs(x, t_).single() == RBH for a, s in x.atoms for t_ in paths.subterms(a)
+                    if t_ and ((t_[0] == "load" and paths.place_is_field(t_[1], "state")) or
+                               (t_[0] == "discr" and paths.term_contains(t_, lambda y: y[0] == "fld" and y[2] == "state"))))
             if not st_atom:
                 r.fail(g.name, "record-gate", "block_boundary_state returns Some outside state == ReadBlockHeader")
     if rec_fields is None:
@@ -1941,3 +2062,142 @@ def rule_handback_mask(ctx, cfg, r):
                    where=first_span(x), path=row_path(x, 6))
     if n < 4:
         r.fail(fn, "handback-mask/rows", "expected at least 4 exit rows that call undo_bytes, found %d" % n)
+
+
+# ---------------------------------------------------------------------------------------------- R05.2 panic-site census (array indexing)
+CENSUS_FNS = ("inflate::core::decompress_fast", "inflate::core::init_tree", "inflate::core::decode_huffman_code", "inflate::core::read_bits",
+              "inflate::core::HuffmanTable::lookup", "inflate::core::HuffmanTable::tree_lookup", "inflate::core::HuffmanTable::fast_lookup",
+              "inflate::core::start_static_table", "inflate::core::fill_bit_buffer", "inflate::core::read_byte", "inflate::core::pad_to_bytes",
+              "inflate::core::undo_bytes", "inflate::core::num_extra_bits_for_distance_code")
+
+
+def _index_is_param(f, site, param):
+    """site = 'copy _N' / 'move _N': is local N (a copy of) parameter `param`?"""
+    import re
+    m = re.match(r"(?:copy|move) _(\d+)$", site.strip())
+    if not m:
+        return False
+    l = int(m.group(1))
+    for _ in range(4):
+        if l == param:
+            return True
+        defs = f.defs().get(l, [])
+        if len(defs) != 1 or defs[0][1] == "t":
+            return False
+        rv = f.blocks[defs[0][0]]["s"][defs[0][1]]["a"][1]
+        if "use" in rv and ("c" in rv["use"] or "m" in rv["use"]):
+            pl = rv["use"].get("c") or rv["use"].get("m")
+            if pl["p"]:
+                return False
+            l = pl["l"]
+        else:
+            return False
+    return False
+
+
+def rule_panic_census(ctx, cfg, r):
+    """Every index into a fixed-size array on the decode path is either proved in range on every path (mask, dominating guard, table
+    range — discharged by the path evaluator) or belongs to the short reviewed residue.  A new undischarged site means corrupt input
+    can reach an out-of-range index, i.e. a panic."""
+    import re
+    c = ctx.crate(cfg)
+    E = ctx.effects(cfg)
+    M = machine(ctx, cfg)
+    residue = {}        # (scope, len) -> set of index operands
+    total = 0
+
+    def note(scope, outcome):
+        m = re.match(r"assert:BoundsCheck \{ len: const (\d+)_usize, index: (.*) \}", outcome)
+        if m:
+            residue.setdefault((scope, int(m.group(1))), set()).add(m.group(2))
+    for arm in sorted(M.explicit):
+        for x in M.arm_rows(arm):
+            if x.outcome[0] == "diverge":
+                note(M.fn.name + "#" + arm, x.outcome[1])
+    for blk in M.fn.blocks:
+        t = blk["t"]
+        if "assert" in t and t.get("kind", "").startswith("BoundsCheck") and "k" in t.get("len", {}):
+            total += 1
+    for fname in CENSUS_FNS:
+        fs = [g for g in c.fns.values() if g.name == fname]
+        if not fs:
+            continue
+        f = fs[0]
+        ctx.touched(f)
+        for blk in f.blocks:
+            t = blk["t"]
+            if "assert" in t and t.get("kind", "").startswith("BoundsCheck") and "k" in t.get("len", {}):
+                total += 1
+        rows = paths.Evaluator(c, effects=E, pure_calls=sm.PURE, max_paths=6000, max_blocks=80).run(f)
+        heads = sorted({x.outcome[1] for x in rows if x.outcome[0] == "backedge"})
+        allr = list(rows)
+        for h in heads:
+            allr += paths.Evaluator(c, effects=E, pure_calls=sm.PURE, max_paths=6000, max_blocks=80,
+                                    stop_blocks=[q for q in heads if q != h]).run(f, start_bb=h)
+        for x in allr:
+            if x.outcome[0] == "diverge":
+                note(f.name, x.outcome[1])
+    # decode_huffman_code indexes r.tables[table]: `table` is a parameter; discharged when every caller passes a constant below the array length
+    dh = [g for g in c.fns.values() if g.name == "inflate::core::decode_huffman_code"]
+    for key in [k for k in residue if k[0] == "inflate::core::decode_huffman_code"]:
+        ln = key[1]
+        consts = []
+        okc = bool(dh)
+        for g in c.fns.values():
+            if g.kind == "promoted":
+                continue
+            for bb, t in g.calls():
+                if callee_name(t["call"]).endswith("inflate::core::decode_huffman_code"):
+                    a = t["args"][2] if len(t["args"]) > 2 else {}
+                    v = local_expr(c, g, bb, a)
+                    if is_const(v) and 0 <= const_val(v) < ln:
+                        consts.append(const_val(v))
+                    else:
+                        okc = False
+        # only the sites whose index is the parameter itself
+        psites = {s_ for s_ in residue[key] if okc and consts and _index_is_param(dh[0], s_, 3)}
+        residue[key] -= psites
+        if psites:
+            r.ok("inflate::core::decode_huffman_code", "bounds:table-param", "r.tables[table]: every caller passes a constant table number %s < %d" % (sorted(set(consts)), ln))
+        if not residue[key]:
+            del residue[key]
+    nres = sum(len(v) for v in residue.values())
+    for (scope, ln), sites in sorted(residue.items()):
+        r.fail(scope, "bounds:len=%d:sites=%d" % (ln, len(sites)), "%d index site(s) into a %d-element array in %s are not proved in range by a mask, "
+               "a dominating guard or the range of the indexing table: corrupt input may reach an out-of-range index (panic)" % (len(sites), ln, scope))
+    if total < 20:
+        r.fail(M.fn.name, "bounds:census", "only %d constant-length bounds checks found on the decode path (reference tree: > 40)" % total)
+    else:
+        r.ok(M.fn.name, "bounds:census", "%d constant-length array index sites on the decode path, %d discharged by mask / guard / table range, %d in the reviewed residue"
+             % (total, total - nres, nres))
+    ctx.extra["index_sites"] = total
+
+
+# ---------------------------------------------------------------------------------------------- R04.7 code-length index in init_tree
+def rule_codelen_index(ctx, cfg, r):
+    """init_tree walks total_symbols (number of codes per length) with an `enumerate` index that it uses as the code length (longest
+    length in use -> the "single 1-bit code" exemption of the completeness test; next_code slots).  The index equals the length only
+    if enumerate numbers the elements from total_symbols[0], i.e. is applied before any skip / step / reversal of that iterator."""
+    c = ctx.crate(cfg)
+    E = ctx.effects(cfg)
+    f = c.fn("inflate::core::init_tree")
+    ctx.touched(f)
+    rows = paths.Evaluator(c, effects=E, pure_calls=sm.PURE, max_paths=4000).run(f)
+    seen = {}
+    for x in rows:
+        for e in x.effects:
+            if e[0] == "call" and e[1].endswith("Iterator::enumerate"):
+                arg = e[2][0]
+                shifted = [st[1].split("::")[-1] for st in paths.subterms(arg)
+                           if st and st[0] == "call" and st[1].split("::")[-1] in ("skip", "skip_while", "step_by", "rev", "take_while", "filter")]
+                src = any(st and st[0] == "call" and st[1].endswith("::iter") for st in paths.subterms(arg))
+                seen[(tstr(arg)[:80])] = (shifted, src, e[3])
+    if not seen:
+        r.ok(f.name, "codelen-index", "init_tree uses no enumerate index for code lengths")
+        return
+    for a, (shifted, src, sp) in seen.items():
+        if shifted or not src:
+            r.fail(f.name, "codelen-index", "the enumerate index used as the code length is taken after %s of the per-length counts (%s): it no longer "
+                   "equals the code length, so the longest-length / completeness test is off by that shift" % (shifted or "an unrecognised adapter", a), where=sp)
+        else:
+            r.ok(f.name, "codelen-index", "enumerate numbers total_symbols from length 0 (skip applied afterwards)")
